@@ -476,7 +476,7 @@ func hexs(b []byte) string {
 
 // Family A: real Write -> bytes; model frame/read on those bytes; real Read under all chunkings.
 func streamWriteRead(c *core.Ctx) {
-	nSeq := c.N(250, 4000)
+	nSeq := c.N(600, 6000)
 	type seqCase struct {
 		msgs     []genMsg
 		payloads [][]byte
@@ -639,7 +639,7 @@ func streamWriteRead(c *core.Ctx) {
 
 // Family B: payload sequences with arbitrary bytes, framed by the MODEL, read by the real Read.
 func streamRaw(c *core.Ctx) {
-	nSeq := c.N(400, 8000)
+	nSeq := c.N(900, 12000)
 	var inputs [][]byte
 	var expect [][]*cmsg // expected message when the payload is one of our hand-laid-out JSON texts
 	var reqs []drv.Req
@@ -863,7 +863,7 @@ func streamMalformed(c *core.Ctx) {
 	eols := []string{"\r\n", "\n", "\r\r\n", " \r\n", "\r", "", "\u00a0\r\n", "\x0b\x0c\n"}
 	blanks := []string{"\r\n", "\n", " \t\r\n", "\u2003\n", "\r\n\r\n", "", "\x85\n", "\xc2\x85\n", "\xe2\x80\n"}
 	bodies := []string{body, body + body, body[:10], "", "\r\n", strings.Repeat("é", 16), body + "\r\n\r\n"}
-	nGram := c.N(6000, 150000)
+	nGram := c.N(12000, 200000)
 	for i := 0; i < nGram; i++ {
 		r := c.Rng
 		var sb strings.Builder
